@@ -132,8 +132,8 @@ fn run_case(line: &str, known_env: &mut BTreeSet<Vec<u8>>) -> (String, String) {
                                 ds,
                                 to_hex(doc.monochrome(full).as_bytes()),
                                 ws.join(";"),
-                                to_hex(doc.render_html(full, false).as_bytes()),
-                                to_hex(doc.render_markdown(full).as_bytes())
+                                html_of(&doc, full),
+                                md_of(&doc, full)
                             )
                         }
                     }
@@ -156,6 +156,35 @@ fn run_case(line: &str, known_env: &mut BTreeSet<Vec<u8>>) -> (String, String) {
     }
 }
 
+#[cfg(feature = "docgen")]
+fn html_of(doc: &bpaf::Doc, full: bool) -> String {
+    to_hex(doc.render_html(full, false).as_bytes())
+}
+#[cfg(feature = "docgen")]
+fn md_of(doc: &bpaf::Doc, full: bool) -> String {
+    to_hex(doc.render_markdown(full).as_bytes())
+}
+#[cfg(not(feature = "docgen"))]
+fn html_of(_doc: &bpaf::Doc, _full: bool) -> String {
+    "-".into()
+}
+#[cfg(not(feature = "docgen"))]
+fn md_of(_doc: &bpaf::Doc, _full: bool) -> String {
+    "-".into()
+}
+
+/// Child-process mode (C11): build the parser of the case named in VERIF_CHILD_CASE_FILE, call the real
+/// `OptionParser::run()` on the process's own argv, and print a sentinel if the program body is reached.
+fn child_mode(path: &str) -> ! {
+    let line = std::fs::read_to_string(path).expect("read child case");
+    let sx = sexp::parse(line.trim()).expect("child case");
+    let l = sx.headed("case").expect("case");
+    let opts = build::options_of(&l[1]).expect("options");
+    let v = opts.run();
+    println!("BODY-REACHED {}", v);
+    std::process::exit(0)
+}
+
 fn panic_text(p: &Box<dyn std::any::Any + Send>) -> String {
     if let Some(s) = p.downcast_ref::<&str>() {
         s.to_string()
@@ -167,6 +196,9 @@ fn panic_text(p: &Box<dyn std::any::Any + Send>) -> String {
 }
 
 fn main() {
+    if let Ok(p) = std::env::var("VERIF_CHILD_CASE_FILE") {
+        child_mode(&p);
+    }
     let av: Vec<String> = std::env::args().collect();
     if av.len() < 3 {
         eprintln!("usage: driver CASES OUT [START]");
